@@ -367,4 +367,157 @@ def reconcileOps (mark edited : T) : List Op := (reconcile mark edited).ops
 /-- the structure of the tree `reconcile()` returns according to the trace -/
 def result (mark edited : T) : T := applyOps (reconcileOps mark edited) (erase mark)
 
+/-! ### side conditions of the theorems (`Pfst/Props/C13.lean`); not part of the mirrored code, evaluated by the driver -/
+
+/-- the marked node at path `q` (`None` when there is none) -/
+def markAt (mark : T) (q : Path) : T := (getAt mark q).getD .nil
+
+/-- Python `==` is exact on the compared pair (edited scalar, marked field). -/
+def primOK : T → T → Bool
+  | .prim v, .prim w => v.eqc != w.eqc || v == w
+  | _, _ => true
+
+def T.kind : T → Nat
+  | .node _ k _ => k
+  | _ => 0
+
+def T.isNil : T → Bool
+  | .nil => true
+  | _ => false
+
+/-- a `Dict` pair pseudo node of kind `pk`: `[key, value]` with the key a node or `None` -/
+def pairShape (pk : Nat) : T → Bool
+  | .node _ k [key, _] => k == pk && (key.isNode || key.isNil)
+  | _ => false
+
+def allShaped (pk : Nat) : List T → Bool
+  | [] => true
+  | x :: r => pairShape pk x && allShaped pk r
+
+/-- a list field of the edited node sits over a list field of the same class and mode (for a `Dict`: whose elements are
+pairs of the same pseudo kind as the edited ones); scalars compare exactly -/
+def fieldOK (m c : T) : Bool :=
+  match c with
+  | .many s md items =>
+    (match m with
+     | .many s' md' mitems => s == s' && md == md' && (md != 2 || items.isEmpty || allShaped (items.headD .nil).kind mitems)
+     | _ => false)
+  | c => primOK c m
+
+def shapeOK : List T → List T → Bool
+  | [], [] => true
+  | m :: ms, c :: cs => fieldOK m c && shapeOK ms cs
+  | _, _ => false
+
+/-- The origin of a `Dict` pair is consistent with its key and value (what `recurse_slice_dict` reads off `values[i].f` and
+`keys[i].f`): a pair tagged as element `c` of the Dict list `(pp, cfi)` of the marked tree has the value (and the key, unless
+`None`) of that very element, and that element is a pair of the marked tree; tree ids of other trees are `≠ 0`. -/
+def pairCons (mark : T) (pk : Nat) (o : Origin) (kv : List T) : Bool :=
+  match o with
+  | .tree (some ⟨pp, cfi, some c⟩) =>
+    pairShape pk (markAt mark (pp ++ [cfi, c])) &&
+    (match kv with
+     | [k, v] => (k.isNil || k.origin == .tree (some ⟨pp ++ [cfi, c], 0, none⟩)) &&
+                 v.origin == .tree (some ⟨pp ++ [cfi, c], 1, none⟩)
+     | _ => false)
+  | .foreign _ tid _ _ => tid != 0
+  | _ => true
+
+mutual
+def wfN (mark : T) : T → Bool
+  | .nil => true
+  | .prim _ => true
+  | .many _ _ _ => false
+  | .node o k cs =>
+    match o with
+    | .foreign true tid _ _ => tid != 0
+    | .foreign false tid _ _ => tid != 0 && wfFs mark cs
+    | .new => wfFs mark cs
+    | .tree l =>
+      (match markAt mark (qOf l) with
+       | .node _ mk mcs => mk == k && shapeOK mcs cs
+       | _ => false) && wfFs mark cs
+def wfFs (mark : T) : List T → Bool
+  | [] => true
+  | .many _ md items :: r =>
+    (if md == 2 then wfPs mark (items.headD .nil).kind items else wfEs mark items) && wfFs mark r
+  | c :: r => wfN mark c && wfFs mark r
+def wfEs (mark : T) : List T → Bool
+  | [] => true
+  | x :: r => wfN mark x && wfEs mark r
+/-- the elements of a `Dict` list: pairs of kind `pk` -/
+def wfPs (mark : T) (pk : Nat) : List T → Bool
+  | [] => true
+  | .node o k kv :: r => k == pk && pairCons mark pk o kv && wfKV mark kv && wfPs mark pk r
+  | _ :: _ => false
+def wfKV (mark : T) : List T → Bool
+  | [k, v] => (k.isNil || (k.isNode && wfN mark k)) && wfN mark v
+  | _ => false
+end
+
+mutual
+/-- The node is in place and nothing reconcile looks at was edited below it: every node below is in place, scalars are `==`
+to the marked ones, list fields have the marked length and hold nodes only (a `None` / `str` element of a list field is put
+again on every reconcile: `Global.names`, `arguments.kw_defaults`, findings F8 / `no_change_false`); `Dict` pairs are in
+place with key and value in place (or `None` over `None`). -/
+def stillN (mark : T) (np : NP) (rel : Path) : T → Bool
+  | .node (.tree l) _ cs =>
+    inPlace np rel l && (markAt mark (qOf l)).isNode && (markAt mark (qOf l)).kids.length == cs.length
+      && stillFs mark (qOf l) 0 cs
+  | _ => false
+def stillFs (mark : T) (q : Path) : Nat → List T → Bool
+  | _, [] => true
+  | fi, .many _ md items :: r =>
+    (markAt mark (q ++ [fi])).kids.length == items.length &&
+      (if md == 2 then stillPs mark q fi 0 items else stillEs mark q fi 0 items) && stillFs mark q (fi + 1) r
+  | fi, .node o k cs :: r => stillN mark (.fst 0 q) [fi] (.node o k cs) && stillFs mark q (fi + 1) r
+  | fi, c :: r => !(pyNe c (erase (markAt mark (q ++ [fi])))) && stillFs mark q (fi + 1) r
+def stillEs (mark : T) (q : Path) (fi : Nat) : Nat → List T → Bool
+  | _, [] => true
+  | i, x :: r => stillN mark (.fst 0 q) [fi, i] x && stillEs mark q fi (i + 1) r
+/-- the pairs of a `Dict` -/
+def stillPs (mark : T) (q : Path) (fi : Nat) : Nat → List T → Bool
+  | _, [] => true
+  | i, .node (.tree l) _ kv :: r =>
+    inPlace (.fst 0 q) [fi, i] l && stillKV mark (q ++ [fi, i]) kv && stillPs mark q fi (i + 1) r
+  | _, _ :: _ => false
+def stillKV (mark : T) (pq : Path) : List T → Bool
+  | [k, v] =>
+    (if k.isNode then stillN mark (.fst 0 pq) [0] k else k.isNil && !(markAt mark (pq ++ [0])).isNode)
+      && stillN mark (.fst 0 pq) [1] v
+  | _ => false
+end
+
+/-- `touchesAt P act p`: the operation `act` at path `P` rewrites the subtree at `p`, an ancestor of it, or something inside
+it.  The region of a `put` / `setPrim` is the subtree at `P`; of `putSlice a b` the elements `a ≤ j < b` of the list at `P`;
+of `delTail a` the elements `j ≥ a`. -/
+def touchesAt : Path → Act → Path → Bool
+  | _, _, [] => true
+  | [], .put _ _, _ :: _ => true
+  | [], .setPrim _, _ :: _ => true
+  | [], .putSlice a b _ _ _, i :: _ => decide (a ≤ i) && decide (i < b)
+  | [], .delTail a, i :: _ => decide (a ≤ i)
+  | j :: P, act, i :: p => j == i && touchesAt P act p
+
+def touches (o : Op) (p : Path) : Bool := touchesAt o.path o.act p
+
+/-- `keptN mark p np rel n`: walking the path `p` down from `n` (field index, then element index for list fields) every
+node on the way is an in-tree node in place, no retry-at-parent fallback fires at it (`recurse_children` of it does not
+raise), no list on the way is a `Dict`, and the subtree reached is unchanged (`stillN`). -/
+def keptN (mark : T) : Path → NP → Path → T → Bool
+  | [], np, rel, n => stillN mark np rel n
+  | fi :: p, np, rel, .node (.tree l) _ cs =>
+    inPlace np rel l && !(recFields mark (.fst 0 (qOf l)) 0 (eraseL (markAt mark (qOf l)).kids) cs).fail &&
+    (match cs[fi]? with
+     | some (.many _ md items) =>
+       md != 2 &&
+       (match p with
+        | i :: p' => (match items[i]? with
+                      | some x => keptN mark p' (.fst 0 (qOf l)) [fi, i] x
+                      | none => false)
+        | [] => false)
+     | some (.node o k cs') => keptN mark p (.fst 0 (qOf l)) [fi] (.node o k cs')
+     | _ => false)
+  | _ :: _, _, _, _ => false
+
 end Pfst.Reconcile
